@@ -733,6 +733,7 @@ func vsRunHistory(out *vOut, id int, kind string, h vsHist, r *rand.Rand) {
 			if orphan {
 				out.Stat("ev_cfg_orphaning", 1)
 			}
+			out.Stat("ev_cfg", 1)
 			built := vsBuildCfg(e.Cfg)
 			st := k.c.SetConfig(lg, built)
 			if k.c.config == built {
@@ -754,7 +755,14 @@ func vsRunHistory(out *vOut, id int, kind string, h vsHist, r *rand.Rand) {
 				out.Stat("ev_cfg_other_return", 1) // no re-sync requested: the comparison with a fresh speaker decides
 			}
 		case "node":
-			_, known := w.nodes[e.Node.Idx]
+			prev, known := w.nodes[e.Node.Idx]
+			out.Stat("ev_node", 1)
+			if known && (prev.Unavail != e.Node.Unavail || prev.Excl != e.Node.Excl) {
+				out.Stat("ev_node_flag_change", 1)
+			}
+			if !known && len(w.K) > 0 {
+				out.Stat("ev_node_first_with_services_present", 1)
+			}
 			w.nodes[e.Node.Idx] = e.Node
 			st := k.c.SetNode(lg, vsBuildNode(e.Node))
 			switch st {
@@ -895,15 +903,14 @@ func TestVerifSpk(t *testing.T) {
 	}}
 	id++
 	vsRunHistory(out, id, "corpus-f9", f9, r)
-	// the first event of a node requests no re-sync (memberlist disabled: the new node is a candidate)
-	f19 := vsHist{Disabled: true, Evs: []vsEv{
-		{Op: "node", Node: &vsNode{Idx: 0}},
-		{Op: "cfg", Cfg: &vsCfg{Pools: []vsPool{{CIDRs: []string{"10.20.30.0/24"}, L2: []vsL2Adv{{Nodes: []int{0, 1, 2}, All: true}}}}}},
+	// the first event of a node requests no re-sync: this node turns out to be network-unavailable
+	// after its services were announced (a nil node counts as available)
+	f19 := vsHist{Speakers: []int{0}, Evs: []vsEv{
+		{Op: "cfg", Cfg: &vsCfg{Pools: []vsPool{{CIDRs: []string{"10.20.30.0/24"}, L2: all,
+			BGP: []vbBAdv{{Agg4: 32, Agg6: 128, Nodes: []int{0}}}}}, Peers: []vbPeer{{Name: 0, Sels: [][][2]int{}}}}},
 		{Op: "svc", Name: 0, Svc: &vsSvc{LB: true, IPs: []string{"10.20.30.1"}, Eps: eps}},
+		{Op: "node", Node: &vsNode{Idx: 0, Unavail: true}},
 		{Op: "svc", Name: 1, Svc: &vsSvc{LB: true, IPs: []string{"10.20.30.2"}, Eps: eps}},
-		{Op: "svc", Name: 2, Svc: &vsSvc{LB: true, IPs: []string{"10.20.30.200"}, Eps: eps}},
-		{Op: "node", Node: &vsNode{Idx: 1}},
-		{Op: "node", Node: &vsNode{Idx: 2}},
 	}}
 	id++
 	vsRunHistory(out, id, "corpus-first-node-event", f19, r)
